@@ -15,6 +15,9 @@ func init() {
 			ruleGxzDataSafety(c, r, "")
 			ruleIO(c, r, gxzCone(c), "", true)
 			r.Floor("EF-IO", 15)
+			// the decompressors gxz relies on: a failing read is never turned into a clean end
+			ruleIO(c, r, readerCone(c), "lib:", true)
+			ruleDecoderReadErr(c, r, "")
 		},
 	})
 	register(&propCheck{
@@ -28,6 +31,7 @@ func init() {
 			"boolean value after a flag is swallowed by the parser - not visible to these rules), .txz/.tlz naming beyond target != input.",
 		run: func(c *Ctx, r *Report) {
 			ruleGxzFlags(c, r, "")
+			ruleReaderWindow(c, r, "")
 			ruleGxzDataSafety(c, r, "")
 			ruleIO(c, r, gxzCone(c), "", true)
 		},
